@@ -236,7 +236,8 @@ impl Prop for Config {
                     _ => (fake.backend(), "fake_sat"),
                 };
                 rec.eval();
-                let (n, compared) = crate::checks::metamorphic::backends_agree_on_medium(meta, &backend, bname, picks)?;
+                // each evaluation costs hundreds of external solver runs: a failure is reported as found, not shrunk
+                let (n, compared) = crate::checks::metamorphic::backends_agree_on_medium(meta, &backend, bname, picks).map_err(|f| f.unshrinkable())?;
                 if bname == "fake_sat" {
                     let bad = fake.illformed();
                     if !bad.is_empty() {
